@@ -159,7 +159,14 @@ def execute(sc):
         cnt[ci] += 1
         prev[ci] = t
     complete = done and all(c > 0 for c in cnt) and prev[0] == prev[1]
-    if complete and not close(tot[0], tot[1], rel=1e-9, ab=1e-9):
+    # the totals are sums of products of publication values and durations and may cancel: the absolute tolerance is
+    # relative to the largest term that can enter them, not to the totals themselves
+    cu_ = sc["consumers"][0].get("units") or sc["src"]["units"]
+    vmax = max([abs(convert((vp + base0) * scale, sc["src"]["units"], cu_)) for _, vp in pubs] + [1.0])
+    span = float(pubs[-1][0] - pubs[0][0]) if len(pubs) > 1 else 1.0
+    if sc["kind"] == "sum" and a.get("per_time", True):
+        span *= 3600.0
+    if complete and not close(tot[0], tot[1], rel=1e-9, ab=1e-9 * vmax * max(span, 1.0) * 4.0 + 1e-9):
         viol.append({"oracle": "partition-sum", "kind": sc["kind"], "consumer": 0,
                      "msg": f"total delivered over the same period differs between partitions: {tot[0]} vs {tot[1]}"})
     return {"violations": viol, "digest": r["digest"], "probes": r["probes"], "faults": {},
